@@ -3,7 +3,7 @@ from ..core import AnalysisError, term_s, subterms
 from ..paths import PathEnum
 from ..seqshape import pieces_of, success_leaf, is_try_cond
 from ..tables import enum_const_table
-from .util import option_is_some, cond_holds, const_of, is_call, look, norm, truth, transforms, last_seg
+from .util import payload_of, propagated_error, option_is_some, cond_holds, const_of, is_call, look, norm, truth, transforms, last_seg
 from .c16 import status_table
 from .fields import field_writers
 
@@ -42,11 +42,7 @@ def run(ctx):
         folds["common::headers::Header::raw"] = enum_const_table(facts, facts.fn("common::headers::Header::raw"), "common::headers::Header")
 
     ctx.guarded("R05.1", "tables", tables)
-    ctx.guarded("R05.1", "status-line", lambda: status_line(ctx, folds))
-    ctx.guarded("R05.1", "headers", lambda: headers(ctx, folds))
-    ctx.guarded("R05.1", "allow", lambda: allow_header(ctx, folds))
-    ctx.guarded("R05.1", "deprecation", lambda: deprecation_header(ctx, folds))
-    ctx.guarded("R05.1", "response", lambda: response(ctx, folds))
+    ctx.guarded("R05.1", "sequence", lambda: whole_sequence(ctx, folds))
     ctx.guarded("R05.2", "write_all-only", lambda: write_all_only(ctx))
     ctx.guarded("R05.3", "set_body", lambda: set_body(ctx))
     ctx.guarded("R05.4", "new", lambda: new_rule(ctx))
@@ -63,15 +59,6 @@ def leaves_of(ctx, name):
     return fn, lv
 
 
-def require_all_paths_end_ok_or_propagate(ctx, rule, fn, leaves):
-    """Every `?` Break path must return the error (from_residual), not swallow it."""
-    for lf in leaves:
-        if lf.kind == "return" and not success_leaf(lf):
-            r = look(lf.ret())
-            ok = is_call(r, "from_residual") or (r[0] == "call" and r[1] == "std::io::Write::write_all")
-            ctx.ob(rule, "%s|error-propagated|bb%d" % (fn.name, lf.bb), ok, "a failed write is propagated to the caller", fn.loc(lf.bb))
-
-
 def show(pieces):
     out = []
     for p in pieces:
@@ -79,197 +66,181 @@ def show(pieces):
             out.append(repr(p[1])[1:])
         elif p[0] == "T":
             out.append("<%s>" % term_s(p[1])[:60])
+        elif p[0] in ("ALLOW", "LOOP"):
+            out.append("<%s>" % p[0])
         else:
             out.append("%s(..)" % p[1].split("::")[-1] if len(p) > 1 else p[0])
     return " ".join(out)
 
 
-def status_line(ctx, folds):
-    fn, leaves = leaves_of(ctx, "response::StatusLine::write_all")
-    good = [lf for lf in leaves if lf.kind == "return" and success_leaf(lf)]
-    ctx.ob("R05.1", "status-line|one-success-path", len(good) == 1, "%d error-free path(s) through StatusLine::write_all" % len(good), fn.loc(0))
-    for lf in good:
-        ps = pieces_of(lf, ctx.facts, ("arg", 2), folds)
-        ok = (
-            len(ps) == 4
-            and ps[0][0] == "T" and is_call(ps[0][1], "common::Version::raw") and self_field(ps[0][1][2][0], "http_version")
-            and ps[1] == ("C", b" ")
-            and ps[2][0] == "T" and is_call(ps[2][1], "response::StatusCode::raw") and self_field(ps[2][1][2][0], "status_code")
-            and ps[3] == ("C", b" \r\n")
-        )
-        ctx.ob("R05.1", "status-line|shape", ok, "status line is: Version::raw(self.http_version) SP StatusCode::raw(self.status_code) SP CRLF; found: %s" % show(ps), fn.loc(0))
-    require_all_paths_end_ok_or_propagate(ctx, "R05.1", fn, leaves)
+WRITE_ALL = "std::io::Write::write_all"
+SINK = ("arg", 2)
 
 
-def headers(ctx, folds):
-    fn, leaves = leaves_of(ctx, "response::ResponseHeaders::write_all")
-    good = [lf for lf in leaves if lf.kind == "return" and success_leaf(lf)]
-    ctx.ob("R05.1", "headers|success-paths", len(good) >= 2, "%d error-free paths through ResponseHeaders::write_all (floor 2)" % len(good), fn.loc(0))
-
-    def atoms(lf):
-        length = enc = None
-        for (t, c, _bb) in lf.conds:
-            if t[0] == "discr" and self_field(t[1], "content_length", RH):
-                length = option_is_some(c)
-            elif self_field(t, "accept_encoding", RH):
-                enc = truth(c)
-        return length, enc
-
-    def expected(length, enc):
-        e = [("C", b"Server: "), ("S",), ("C", b"\r\nConnection: keep-alive\r\n"), ("CALL", "response::ResponseHeaders::write_allow_header"), ("CALL", "response::ResponseHeaders::write_deprecation_header")]
-        if length:
-            e += [("C", b"Content-Type: "), ("CT",), ("C", b"\r\nContent-Length: "), ("CL",), ("C", b"\r\n" + (b"Accept-Encoding: identity\r\n" if enc else b"") + b"\r\n")]
-        else:
-            e += [("C", b"\r\n")]
-        return e
-
-    def match(ps, exp):
-        if len(ps) != len(exp):
+def resp_field(t, *path):
+    """t is self.<path...> of the Response being written (arg 1 of Response::write_all)."""
+    t = look(t)
+    for name in reversed(path):
+        if not (t[0] == "field" and t[3] == name):
             return False
-        for p, e in zip(ps, exp):
-            if e[0] == "C":
-                if p != e:
-                    return False
-            elif e[0] == "CALL":
-                if not (p[0] == "CALL" and p[1] == e[1] and look(p[2][0]) == ("arg", 1)):
-                    return False
-            elif e[0] == "S":
-                if not (p[0] == "T" and self_field(p[1], "server", RH) and not [x for x in transforms(p[1]) if x not in ("as_bytes", "as_str", "deref")]):
-                    return False
-            elif e[0] == "CT":
-                if not (p[0] == "T" and is_call(look_through_bytes(p[1]), "common::headers::MediaType::as_str") and self_field(look_through_bytes(p[1])[2][0], "content_type", RH)):
-                    return False
-            elif e[0] == "CL":
-                v = look_through_bytes(p[1])
-                if not (p[0] == "T" and is_call(v, "to_string") and is_len_payload(v[2][0])):
-                    return False
-        return True
-
-    def look_through_bytes(t):
-        return look(t)
-
-    def is_len_payload(t):
-        t = look(t)
-        # ((*self).content_length as Some).0
-        return t[0] == "field" and t[1][0] == "downcast" and t[1][2] == "Some" and self_field(t[1][1], "content_length", RH)
-
-    seen = set()
-    for lf in good:
-        length, enc = atoms(lf)
-        ps = pieces_of(lf, ctx.facts, ("arg", 2), folds)
-        vals_len = [length] if length is not None else [True, False]
-        for L in vals_len:
-            vals_enc = [enc] if enc is not None else ([True, False] if L else [False])
-            for E in vals_enc:
-                seen.add((L, bool(E) if L else False))
-                ok = match(ps, expected(L, E))
-                ctx.ob("R05.1", "headers|shape|len=%s,enc=%s" % (L, bool(E) if L else "-"), ok,
-                       "header block for (length present=%s, encoding=%s): %s" % (L, E, show(ps)), fn.loc(lf.bb))
-    for combo in [(True, True), (True, False), (False, False)]:
-        ctx.ob("R05.1", "headers|covered|%s" % (combo,), combo in seen, "a path exists for (length present, encoding) = %s" % (combo,), fn.loc(0))
-    require_all_paths_end_ok_or_propagate(ctx, "R05.1", fn, leaves)
+        t = look(t[1])
+    return t == ("arg", 1)
 
 
-def allow_header(ctx, folds):
-    fn, leaves = leaves_of(ctx, "response::ResponseHeaders::write_allow_header")
-
-    def is_empty_cond(t):
-        return is_call(t, "is_empty") and self_field(t[2][0], "allow", RH)
-
-    good = [lf for lf in leaves if lf.kind in ("return", "loop") and success_leaf(lf)]
-    n_empty = n_exit = n_body = 0
-    for lf in good:
-        ps = pieces_of(lf, ctx.facts, ("arg", 2), folds)
-        if cond_holds(lf.conds, is_empty_cond, True):
-            n_empty += 1
-            ctx.ob("R05.1", "allow|empty-writes-nothing", ps == [] and lf.kind == "return", "no Allow line when the list is empty; found: %s" % show(ps), fn.loc(lf.bb))
+def _join(ps):
+    out = []
+    for p in ps:
+        if p[0] == "C" and out and out[-1][0] == "C":
+            out[-1] = ("C", out[-1][1] + p[1])
+        elif p[0] == "C" and not p[1]:
             continue
-        if not cond_holds(lf.conds, is_empty_cond, False):
-            ctx.fail("R05.1", "allow|unguarded", "Allow header written on a path that does not test allow.is_empty()", fn.loc(lf.bb))
-            continue
-        if lf.kind == "return":
-            n_exit += 1
-            ctx.ob("R05.1", "allow|frame", ps == [("C", b"Allow: "), ("C", b"\r\n")] or ps == [("C", b"Allow: \r\n")], "loop-exit path writes 'Allow: ' ... CRLF; found: %s" % show(ps), fn.loc(lf.bb))
-            continue
-        # loop leaf: prefix + one iteration
-        n_body += 1
-        delim = None
-        for (t, c, _bb) in lf.conds:
-            if t[0] == "bin" and t[1] == "Lt":
-                delim = (t, truth(c))
-        ok = len(ps) >= 2 and ps[0] == ("C", b"Allow: ") and ps[1][0] == "T" and is_call(ps[1][1], "common::Method::raw")
-        item_ok = False
-        if ok:
-            tr = transforms(ps[1][1])
-            item = ps[1][1]
-            item_ok = any(self_field(s, "allow", RH) for s in subterms(item) if isinstance(s, tuple) and s and s[0] == "field") and "next" in tr and not [x for x in tr if x in ("rev", "skip", "take", "filter", "step_by", "skip_while", "take_while", "peekable", "chain", "cycle")]
-        rest = ps[2:]
-        if delim is None:
-            ctx.fail("R05.1", "allow|delimiter-condition", "cannot find the idx < len-1 test that guards the ', ' delimiter", fn.loc(lf.bb))
-            continue
-        t, tv = delim
-        idx, bound = look(t[2]), look(t[3])
-        idx_ok = idx[0] == "field" and idx[3] == "0" and "enumerate" in transforms(idx)
-        bound_ok = any(is_call(s, "len") and self_field(s[2][0], "allow", RH) for s in subterms(bound) if isinstance(s, tuple)) and any(s == ("const", 1) for s in subterms(bound)) and any(isinstance(s, tuple) and s and s[0] == "bin" and s[1].startswith("Sub") for s in subterms(bound))
-        want_rest = [("C", b", ")] if tv else []
-        ctx.ob("R05.1", "allow|iteration|delim=%s" % tv, ok and item_ok and idx_ok and bound_ok and rest == want_rest,
-               "each iteration writes Method::raw(item of self.allow in order) then ', ' iff idx < len-1 (item %s, idx %s, bound %s); found: %s" % (item_ok, idx_ok, bound_ok, show(ps)), fn.loc(lf.bb))
-    ctx.ob("R05.1", "allow|paths", n_empty >= 1 and n_exit >= 1 and n_body >= 2, "paths classified: empty=%d exit=%d iteration=%d" % (n_empty, n_exit, n_body), fn.loc(0))
-    require_all_paths_end_ok_or_propagate(ctx, "R05.1", fn, leaves)
-
-
-def deprecation_header(ctx, folds):
-    fn, leaves = leaves_of(ctx, "response::ResponseHeaders::write_deprecation_header")
-    good = [lf for lf in leaves if lf.kind == "return" and success_leaf(lf)]
-    seen = set()
-    for lf in good:
-        ps = pieces_of(lf, ctx.facts, ("arg", 2), folds)
-        flag = None
-        for (t, c, _bb) in lf.conds:
-            if self_field(t, "deprecation", RH):
-                flag = truth(c)
-        for F in ([flag] if flag is not None else [True, False]):
-            seen.add(F)
-            want = [("C", b"Deprecation: true\r\n")] if F else []
-            ctx.ob("R05.1", "deprecation|flag=%s" % F, ps == want, "deprecation=%s writes %s; found: %s" % (F, show(want) or "nothing", show(ps) or "nothing"), fn.loc(lf.bb))
-    ctx.ob("R05.1", "deprecation|covered", seen == {True, False}, "both values of the flag have a path", fn.loc(0))
-    require_all_paths_end_ok_or_propagate(ctx, "R05.1", fn, leaves)
-
-
-def response(ctx, folds):
-    fn, leaves = leaves_of(ctx, "response::Response::write_all")
-    good = [lf for lf in leaves if lf.kind == "return" and success_leaf(lf)]
-    ctx.ob("R05.1", "response|one-success-path", len(good) == 1, "%d error-free path(s) through Response::write_all" % len(good), fn.loc(0))
-    for lf in good:
-        ps = pieces_of(lf, ctx.facts, ("arg", 2), folds)
-        ok = (
-            len(ps) == 3
-            and ps[0][0] == "CALL" and ps[0][1] == "response::StatusLine::write_all" and self_field(ps[0][2][0], "status_line")
-            and ps[1][0] == "CALL" and ps[1][1] == "response::ResponseHeaders::write_all" and self_field(ps[1][2][0], "headers")
-            and ps[2][0] == "CALL" and ps[2][1] == "response::Response::write_body" and look(ps[2][2][0]) == ("arg", 1)
-        )
-        ctx.ob("R05.1", "response|order", ok, "status line, then headers, then body, all to the caller's sink; found: %s" % show(ps), fn.loc(0))
-    require_all_paths_end_ok_or_propagate(ctx, "R05.1", fn, leaves)
-    fb, lb = leaves_of(ctx, "response::Response::write_body")
-    seen = set()
-    for lf in [l for l in lb if l.kind == "return" and success_leaf(l)]:
-        ps = pieces_of(lf, ctx.facts, ("arg", 2), folds)
-        some = None
-        for (t, c, _bb) in lf.conds:
-            if t[0] == "discr" and self_field(t[1], "body"):
-                some = option_is_some(c)
-        seen.add(some)
-        if some:
-            ok = len(ps) == 1 and ps[0][0] == "T" and is_call(ps[0][1], "common::Body::raw")
-            if ok:
-                a = look(ps[0][1][2][0])
-                ok = a[0] == "field" and a[1][0] == "downcast" and a[1][2] == "Some" and self_field(a[1][1], "body")
-            ctx.ob("R05.1", "body|some", ok, "a present body is written as Body::raw(body) and nothing else; found: %s" % show(ps), fb.loc(lf.bb))
-        elif some is False:
-            ctx.ob("R05.1", "body|none", ps == [], "nothing is written when there is no body; found: %s" % show(ps), fb.loc(lf.bb))
         else:
-            ctx.fail("R05.1", "body|unguarded", "write_body has a path not decided by body being Some/None", fb.loc(lf.bb))
-    ctx.ob("R05.1", "body|covered", seen == {True, False}, "both Some and None paths exist", fb.loc(0))
+            out.append(p)
+    return out
+
+
+def _piece(facts, v, folds):
+    """One argument of write_all as a piece: ('C', bytes) or ('T', term)."""
+    v = look(v)
+    if folds and v[0] == "call" and v[1] in folds and len(v[2]) == 1:
+        a = look(v[2][0])
+        if a[0] == "agg" and a[2] in folds[v[1]]:
+            v = ("const", folds[v[1]][a[2]])
+    if v[0] == "const" and isinstance(v[1], (bytes, str)):
+        return ("C", v[1] if isinstance(v[1], bytes) else v[1].encode())
+    if v[0] == "array" and all(x[0] == "const" and isinstance(x[1], int) for x in v[1]):
+        return ("C", bytes(x[1] for x in v[1]))
+    return ("T", norm(v))
+
+
+def _pieces(facts, events, folds):
+    """Pieces written to the sink by a run of events; a loop head met for the first time leaves a marker."""
+    out = []
+    seen_heads = set()
+    for e in events:
+        if e[0] == "enter":
+            if e[1] not in seen_heads:
+                seen_heads.add(e[1])
+                out.append(("HEAD", e[1]))
+            continue
+        if e[0] != "call":
+            continue
+        path, args = e[3], e[4][2]
+        if path == WRITE_ALL and any(x == SINK for x in subterms(args[0])):
+            out.append(_piece(facts, args[1], folds))
+        elif path.startswith("std::io::Write::") and args and any(x == SINK for x in subterms(args[0])):
+            out.append(("OTHERWRITE", path))
+        elif path in facts.fns and any(any(x == SINK for x in subterms(a)) for a in args):
+            out.append(("CALL", path))
+    return out
+
+
+def _iter_source(it):
+    """Strip &mut / into_iter wrappers from an iterator term."""
+    it = look(it)
+    while it[0] == "mut" or is_call(it, "into_iter"):
+        it = look(it[1]) if it[0] == "mut" else look(it[2][0])
+    return it
+
+
+def whole_sequence(ctx, folds):
+    """The complete ordered output of Response::write_all with every helper that receives the sink traversed
+    inline, per error-free path, compared with the wire format under the path's own conditions.  Independent
+    of how the serializer is divided into functions."""
+    facts = ctx.facts
+    fn = facts.fn("response::Response::write_all")
+    ctx.touched(fn)
+
+    def takes_sink(path, args):
+        return any(any(x == SINK for x in subterms(a)) for a in args)
+
+    lv = PathEnum(fn, facts, inline_also=takes_sink, mark_cycles=True, max_paths=60000).run()
+    for f in facts.fns.values():
+        if f.d["span"]["file"] == "src/response.rs" and any(last_seg(t["callee"].get("path") or "") == "write_all" for bb, t in f.calls()):
+            ctx.touched(f)
+    good = [lf for lf in lv if success_leaf(lf) and lf.kind in ("return", "loop")]
+    # error paths: the failure of a write is what the serializer returns
+    n_err = 0
+    for lf in lv:
+        if lf.kind == "return" and not success_leaf(lf):
+            n_err += 1
+            r = look(lf.ret())
+            src = propagated_error(r)[0] if is_call(r, "from_residual") else r
+            ctx.ob("R05.1", "error-propagated|%s" % (src[1].split("::")[-1] if src[0] == "call" else "?"), src[0] == "call" and src[1] == WRITE_ALL, "a failed write is returned to the caller as it is", fn.loc(lf.bb))
+        elif lf.kind not in ("return", "loop"):
+            ctx.fail("R05.1", "path|%s" % lf.kind, "the serializer has a path that ends in %s" % lf.kind, fn.loc(lf.bb))
+    ctx.ob("R05.1", "error-paths|floor", n_err >= 10, "%d failing-write paths inspected (floor 10)" % n_err, fn.loc(0))
+    # ---- loops: classify each loop head by its iteration bodies
+    heads = {}
+    for lf in good:
+        if lf.kind == "loop":
+            heads.setdefault(lf.bb, []).append(lf)
+    expansion = {}
+    for H, lfs in heads.items():
+        bodies = []
+        for lf in lfs:
+            i1 = [i for i, e in enumerate(lf.events) if e[0] == "enter" and e[1] == H][0]
+            body = [p for p in _pieces(facts, lf.events[i1:], folds) if p[0] != "HEAD"]
+            item_src = None
+            for (t, c, _b) in lf.conds:
+                pass
+            bodies.append((lf, i1, body))
+        kind = classify_loop(ctx, fn, H, bodies, folds)
+        expansion[H] = kind
+    # ---- whole sequences
+    seen = set()
+    for lf in good:
+        if lf.kind != "return":
+            continue
+        ps = _pieces(facts, lf.events, folds)
+        bad = [p for p in ps if p[0] in ("CALL", "OTHERWRITE")]
+        if bad:
+            ctx.fail("R05.1", "sink-escapes|%s" % bad[0][1], "the sink is handed to %s, which the analysis could not follow" % bad[0][1], fn.loc(lf.bb))
+            continue
+        seq = []
+        ok_loops = True
+        for p in ps:
+            if p[0] == "HEAD":
+                ex = expansion.get(p[1])
+                if ex is None:
+                    continue     # a block on a cycle that is not a loop head of a writing loop
+                if ex[0] == "bad":
+                    ok_loops = False
+                elif ex[0] == "pieces":
+                    seq.extend(ex[1])
+                else:
+                    seq.append(ex)
+            else:
+                seq.append(p)
+        if not ok_loops:
+            continue
+        # form B of the Allow list: first item written before the loop that writes (", " item)*
+        norm_seq = []
+        for p in seq:
+            if p[0] == "ALLOW" and p[1] == "B":
+                prev = norm_seq.pop() if norm_seq else None
+                first_ok = prev is not None and prev[0] == "T" and is_call(prev[1], "common::Method::raw") and payload_of(prev[1][2][0]) is not None and norm(_iter_source(payload_of(prev[1][2][0])[2][0])) == norm(p[2])
+                norm_seq.append(("ALLOW",) if first_ok else ("BADALLOW",))
+            elif p[0] == "ALLOW":
+                norm_seq.append(("ALLOW",))
+            else:
+                norm_seq.append(p)
+        seq = _join(norm_seq)
+        # the path's own conditions
+        fl = flags_of(lf)
+        has_allow = any(p[0] == "ALLOW" for p in seq)
+        key = "allow=%s,deprecation=%s,length=%s,encoding=%s,body=%s" % (has_allow, fl["deprecation"], fl["length"], fl["encoding"] if fl["length"] else "-", fl["body"])
+        undecided = [k for k in ("deprecation", "length", "body") if fl[k] is None] + (["encoding"] if fl["length"] and fl["encoding"] is None else []) + (["allow"] if fl["allow_nonempty"] is None else [])
+        if undecided:
+            ctx.fail("R05.1", "sequence|undecided|%s" % ",".join(undecided), "a path through the serializer does not test %s, which the wire format depends on; found: %s" % (undecided, show(seq)), fn.loc(lf.bb))
+            continue
+        ok_allow = has_allow == fl["allow_nonempty"]
+        exp = expected(fl, has_allow)
+        ok = ok_allow and matches(seq, exp)
+        seen.add((has_allow, fl["deprecation"], fl["length"], bool(fl["encoding"]) if fl["length"] else False, fl["body"]))
+        ctx.ob("R05.1", "sequence|%s" % key, ok, "output for (%s): %s" % (key, show(seq)), fn.loc(lf.bb))
+    want = {(a, d, l, e, b) for a in (True, False) for d in (True, False) for (l, e) in ((False, False), (True, False), (True, True)) for b in (True, False)}
+    ctx.ob("R05.1", "sequence|covered", want <= seen, "%d of the %d combinations of (allow list non-empty, deprecation, length present, encoding flag, body present) have an error-free path" % (len(want & seen), len(want)), fn.loc(0))
     # Body accessors are the identity on the stored bytes
     fr = ctx.facts.fn("common::Body::raw")
     ctx.touched(fr)
@@ -277,6 +248,184 @@ def response(ctx, folds):
         r = lf.ret()
         v = look(r)
         ctx.ob("R05.1", "Body::raw|identity", v[0] == "field" and v[3] == "body" and look(v[1]) == ("arg", 1) and not [x for x in transforms(r) if x not in ("as_slice", "deref", "as_ref")], "Body::raw returns the stored bytes unchanged: %s" % term_s(r), fr.loc(0))
+
+
+def flags_of(lf):
+    fl = {"deprecation": None, "length": None, "encoding": None, "body": None, "allow_nonempty": None}
+    for (t, c, _b) in lf.conds:
+        tv = truth(c)
+        x = t
+        while x[0] == "un" and x[1] == "Not":
+            x = look(x[2])
+            tv = None if tv is None else not tv
+        if resp_field(x, "headers", "deprecation"):
+            fl["deprecation"] = tv
+        elif resp_field(x, "headers", "accept_encoding"):
+            fl["encoding"] = tv
+        elif x[0] == "discr" and resp_field(x[1], "headers", "content_length"):
+            fl["length"] = option_is_some(c)
+        elif x[0] == "discr" and resp_field(x[1], "body"):
+            fl["body"] = option_is_some(c)
+        elif is_call(x, "is_empty") and resp_field(x[2][0], "headers", "allow") and tv is not None:
+            fl["allow_nonempty"] = not tv
+        elif is_call(x, "is_some", "is_none") and x[2] and tv is not None:
+            v = tv if is_call(x, "is_some") else not tv
+            if resp_field(x[2][0], "headers", "content_length"):
+                fl["length"] = v
+            elif resp_field(x[2][0], "body"):
+                fl["body"] = v
+        elif x[0] == "discr" and fl["allow_nonempty"] is None:
+            # first element of self.allow taken with next(): Some = non-empty
+            y = look(x[1])
+            if is_call(y, "next"):
+                it = _iter_source(y[2][0])
+                if is_call(it, "iter") and resp_field(it[2][0], "headers", "allow") and option_is_some(c) is not None:
+                    fl["allow_nonempty"] = option_is_some(c)
+    return fl
+
+
+def expected(fl, has_allow):
+    e = [("VER",), ("C", b" "), ("STATUS",), ("C", b" \r\nServer: "), ("SERVER",), ("C", b"\r\nConnection: keep-alive\r\n")]
+    if has_allow:
+        e += [("C", b"Allow: "), ("ALLOW",), ("C", b"\r\n")]
+    if fl["deprecation"]:
+        e += [("C", b"Deprecation: true\r\n")]
+    if fl["length"]:
+        e += [("C", b"Content-Type: "), ("CT",), ("C", b"\r\nContent-Length: "), ("CL",), ("C", b"\r\n" + (b"Accept-Encoding: identity\r\n" if fl["encoding"] else b""))]
+    e += [("C", b"\r\n")]
+    if fl["body"]:
+        e += [("BODY",)]
+    return _join(e)
+
+
+def matches(seq, exp):
+    if len(seq) != len(exp):
+        return False
+    for p, e in zip(seq, exp):
+        k = e[0]
+        if k == "C":
+            if p != e:
+                return False
+        elif k == "ALLOW":
+            if p != ("ALLOW",):
+                return False
+        elif p[0] != "T":
+            return False
+        elif k == "VER":
+            if not (is_call(p[1], "common::Version::raw") and resp_field(p[1][2][0], "status_line", "http_version")):
+                return False
+        elif k == "STATUS":
+            if not (is_call(p[1], "response::StatusCode::raw") and resp_field(p[1][2][0], "status_line", "status_code")):
+                return False
+        elif k == "SERVER":
+            if not (resp_field(p[1], "headers", "server") and not [x for x in transforms(p[1]) if x not in ("as_bytes", "as_str", "deref")]):
+                return False
+        elif k == "CT":
+            v = look(p[1])
+            if not (is_call(v, "common::headers::MediaType::as_str") and resp_field(v[2][0], "headers", "content_type")):
+                return False
+        elif k == "CL":
+            v = look(p[1])
+            if not (is_call(v, "to_string") and payload_of(v[2][0]) is not None and resp_field(payload_of(v[2][0]), "headers", "content_length")):
+                return False
+        elif k == "BODY":
+            v = look(p[1])
+            if not is_call(v, "common::Body::raw"):
+                return False
+            if not (payload_of(v[2][0]) is not None and resp_field(payload_of(v[2][0]), "body")):
+                return False
+    return True
+
+
+REORDERING = ("rev", "skip", "take", "filter", "step_by", "skip_while", "take_while", "peekable", "chain", "cycle", "map", "zip")
+
+
+def classify_loop(ctx, fn, H, bodies, folds):
+    """What a writing loop contributes to the output, from its iteration bodies (prefix + one iteration each):
+    ('pieces', [...]) for a loop over a literal array, ('ALLOW', form, iterator) for the Allow list, ('bad',)."""
+    facts = ctx.facts
+    writing = [b for b in bodies if b[2]]
+    if not writing:
+        return None
+    loc = fn.loc(H)
+    # the loop's item: payload of next() on its iterator, tested Some on the iteration path
+    def item_iter(lf, i1):
+        for e in lf.events[i1:]:
+            if e[0] == "cond" and e[3][0] == "discr" and is_call(look(e[3][1]), "next") and option_is_some(e[4]):
+                return look(e[3][1])
+        return None
+    nxt = item_iter(writing[0][0], writing[0][1])
+    if nxt is None:
+        ctx.fail("R05.1", "loop|not-iterator-driven", "a loop that writes to the sink is not driven by Iterator::next", loc)
+        return ("bad",)
+    it = _iter_source(nxt[2][0])
+    tr = transforms(it)
+    if any(x in REORDERING for x in tr):
+        ctx.fail("R05.1", "loop|reordering-adapter", "the writing loop iterates through %s, which does not keep every element in order" % [x for x in tr if x in REORDERING], loc)
+        return ("bad",)
+
+    def is_item(t):
+        src = payload_of(t)
+        while src is not None and not is_call(src, "next"):
+            # (idx, item) of enumerate: the item is component 1 of the payload
+            break
+        return src is not None and norm(src) == norm(nxt)
+
+    src_it = it
+    enumerated = False
+    if is_call(src_it, "enumerate"):
+        enumerated = True
+        src_it = _iter_source(src_it[2][0])
+    base = look(src_it[2][0]) if is_call(src_it, "iter", "into_iter") and src_it[2] else None
+    # (a) literal array of byte strings
+    arr = base
+    while arr is not None and arr[0] == "mut":
+        arr = look(arr[1])
+    if arr is not None and arr[0] == "array" and not enumerated:
+        ok = len(writing) == 1 and len(writing[0][2]) == 1 and writing[0][2][0][0] == "T" and is_item(writing[0][2][0][1])
+        ctx.ob("R05.1", "loop|array-in-order|bb%d" % int(H), ok, "a loop over a literal array writes each element once, in order", loc)
+        if not ok:
+            return ("bad",)
+        return ("pieces", [_piece(facts, x, folds) for x in arr[1]])
+    # the Allow list
+    if base is not None and resp_field(base, "headers", "allow"):
+        def is_raw_item(p, enumerated_):
+            if p[0] != "T" or not is_call(p[1], "common::Method::raw"):
+                return False
+            a = look(p[1][2][0])
+            if enumerated_:
+                return a[0] == "field" and a[3] == "1" and is_item(a[1])
+            return is_item(a)
+        if enumerated:
+            # form A: item, then ", " iff idx < len - 1
+            ok = True
+            variants = set()
+            for lf, i1, body in writing:
+                delim = None
+                for e in lf.events[i1:]:
+                    if e[0] == "cond" and e[3][0] == "bin" and e[3][1] == "Lt":
+                        idx, bound = look(e[3][2]), look(e[3][3])
+                        idx_ok = idx[0] == "field" and idx[3] == "0" and is_item(idx[1])
+                        bound_ok = any(is_call(x, "len") and resp_field(x[2][0], "headers", "allow") for x in subterms(bound) if isinstance(x, tuple)) and any(x == ("const", 1) for x in subterms(bound)) and any(isinstance(x, tuple) and x and x[0] == "bin" and x[1].startswith("Sub") for x in subterms(bound))
+                        if idx_ok and bound_ok:
+                            delim = truth(e[4])
+                if delim is None:
+                    ok = False
+                    continue
+                variants.add(delim)
+                want = [("T",), ("C", b", ")] if delim else [("T",)]
+                ok = ok and len(body) == len(want) and is_raw_item(body[0], True) and (not delim or body[1] == ("C", b", "))
+            ok = ok and variants == {True, False}
+            ctx.ob("R05.1", "allow|iteration", ok, "each iteration writes Method::raw(item of self.allow, in order) followed by ', ' exactly when idx < len - 1", loc)
+            return ("ALLOW", "A", None) if ok else ("bad",)
+        # form B: (", " item) for every element after the first, which was taken from the same iterator
+        ok = len(writing) >= 1
+        for lf, i1, body in writing:
+            ok = ok and len(body) == 2 and body[0] == ("C", b", ") and is_raw_item(body[1], False)
+        ctx.ob("R05.1", "allow|iteration", ok, "after the first element, each iteration writes ', ' followed by Method::raw(next item of the same iterator over self.allow)", loc)
+        return ("ALLOW", "B", src_it) if ok else ("bad",)
+    ctx.fail("R05.1", "loop|unrecognised", "a loop writes to the sink that is neither over a literal array nor over self.allow: iterator %s" % term_s(it)[:120], loc)
+    return ("bad",)
 
 
 def write_all_only(ctx):
@@ -290,7 +439,7 @@ def write_all_only(ctx):
                 n += 1
                 ctx.touched(fn)
                 ctx.ob("R05.2", "%s|%s" % (fn.name, last_seg(p)), p == "std::io::Write::write_all", "sink call %s in %s" % (p, fn.name), fn.loc(bb))
-    ctx.ob("R05.2", "floor", n >= 20, "%d Write calls inspected in response.rs (floor 20)" % n)
+    ctx.ob("R05.2", "floor", n >= 5, "%d Write calls inspected in response.rs (floor 5)" % n)
 
 
 def set_body(ctx):
@@ -336,12 +485,16 @@ def set_body(ctx):
     for g in facts.fns.values():
         for bb, t in g.calls_to("response::ResponseHeaders::set_content_length"):
             callers.add(g.name)
-    ctx.ob("R05.3", "callers|set_content_length", callers <= {"response::Response::set_body", "response::Response::set_content_length"}, "callers of ResponseHeaders::set_content_length: %s" % sorted(callers))
+    # Response::new may also use the setter for the initial value: R05.4 decides what it stores
+    ctx.ob("R05.3", "callers|set_content_length", callers <= {"response::Response::set_body", "response::Response::set_content_length", "response::Response::new"}, "callers of ResponseHeaders::set_content_length: %s" % sorted(callers))
 
 
 def new_rule(ctx):
     facts = ctx.facts
-    fn, leaves = leaves_of(ctx, "response::Response::new")
+    fn = facts.fn("response::Response::new")
+    ctx.touched(fn)
+    # setters, Default::default and helpers are traversed inline: what matters is the value the new response holds
+    leaves = PathEnum(fn, facts, inline_also=lambda path, args: path != "response::StatusLine::new").run()
     discr = facts.variant_discr("response::StatusCode")
     names = [v["name"] for v in facts.struct_fields("response::Response")]
     hnames = [v["name"] for v in facts.struct_fields(RH)]
